@@ -319,4 +319,77 @@ theorem subLocationFuzzy_truncates (l : Loc) (s e : Int) (h0 : 0 ≤ s) (hs : s 
   unfold subLocationFuzzy
   rw [if_neg (by simp; omega), if_neg (by simp; omega), if_pos (by simp; omega)]
 
+/-! ### the gene's own translation -/
+
+theorem takeWhile_take_of_all {α} (p : α → Bool) (l : List α) (n : Nat) (h : ∀ x ∈ l.take n, p x = true) :
+    (l.takeWhile p).take n = l.take n := by
+  induction l generalizing n with
+  | nil => simp
+  | cons a l ih =>
+    cases n with
+    | zero => simp
+    | succ n =>
+      have ha : p a = true := h a (by simp)
+      simp only [List.takeWhile_cons, ha, if_true, List.take_succ_cons]
+      rw [ih n (fun x hx => h x (by simp [hx]))]
+
+theorem sliceL_of_take_eq {α} (x y : List α) (s e : Nat) (h : x.take e = y.take e) : sliceL x s e = sliceL y s e := by
+  unfold sliceL
+  have hx : (x.drop s).take (e - s) = (x.take e).drop s := by rw [List.drop_take]
+  have hy : (y.drop s).take (e - s) = (y.take e).drop s := by rw [List.drop_take]
+  rw [hx, hy, h]
+
+theorem sliceL_forceMet (x : List Char) (s e : Nat) (hs : 1 ≤ s) : sliceL (forceMet x) s e = sliceL x s e := by
+  cases x with
+  | nil => rfl
+  | cons a r =>
+    obtain ⟨k, rfl⟩ : ∃ k, s = k + 1 := ⟨s - 1, by omega⟩
+    simp [sliceL, forceMet]
+
+/-- residues before the first stop (and not one of the letters replaced by X) come through
+    `get_aa_translation_from_location` unchanged -/
+theorem aaTranslation_take (aas : List Char) (e : Nat) (he : 1 ≤ e) (hlen : e ≤ aas.length)
+    (h : ∀ c ∈ aas.take e, "*BJOUZ".toList.contains c = false) :
+    (aaTranslation aas).take e = aas.take e := by
+  have hns : ∀ c ∈ aas.take e, (c != '*') = true := by
+    intro c hc
+    have := h c hc
+    by_cases hcs : c = '*'
+    · subst hcs; simp at this
+    · simpa using hcs
+  have htw := takeWhile_take_of_all (· != '*') aas e hns
+  have hne : (aas.takeWhile (· != '*')).isEmpty = false := by
+    cases aas with
+    | nil => simp at hlen; omega
+    | cons a r =>
+      have : (a != '*') = true := hns a (by
+        obtain ⟨k, rfl⟩ : ∃ k, e = k + 1 := ⟨e - 1, by omega⟩
+        simp)
+      simp [this]
+  unfold aaTranslation
+  simp only [hne, Bool.false_eq_true, if_false]
+  rw [← List.map_take, htw]
+  conv => rhs; rw [← List.map_id (aas.take e)]
+  apply List.map_congr_left
+  intro c hc
+  have := h c hc
+  simp only [this, Bool.false_eq_true, if_false, id]
+
+
+theorem codons_length {β} (l : List β) : (codons l).length = l.length / 3 := by
+  induction l using codons.induct with
+  | case1 a b c rest ih => simp only [codons, List.length_cons, ih]; omega
+  | case2 l h =>
+    match l, h with
+    | [], _ => simp [codons]
+    | [_], _ => simp [codons]
+    | [_, _], _ => simp [codons]
+    | a :: b :: c :: r, h => exact absurd rfl (h a b c r)
+
+theorem extract_length {β} (seq : Int → β) (compl : β → β) (l : Loc) (hwf : geneWF l = true) :
+    ((extract seq compl l).length : Int) = l.len := by
+  obtain ⟨_, hparts⟩ := (geneWF_iff l).mp hwf
+  rw [extract_uniform seq compl l l.strand (fun p hp => (hparts p hp).2), List.length_map,
+    len_eq_bases_length l (fun p hp => Int.le_of_lt (hparts p hp).1)]
+
 end ASV.ProtDna
